@@ -215,6 +215,12 @@ func fzIfaceShapes() []fzIfaceShape {
 		{name: "grouped-last", text: "type (\n\tOther struct{ X int }\n\tConvergen interface {\n\t\tAtoD(*SA) *DA\n\t}\n)"},
 		{name: "grouped-marked", text: "type (\n\t// :convergen\n\tFirst interface {\n\t\tAtoD(*SA) *DA\n\t}\n\t// :convergen\n\t// :style arg\n\tSecond interface {\n\t\tBtoD(*SB) *DB\n\t}\n)"},
 		{name: "grouped-doc-on-group", text: "// :convergen\ntype (\n\tFirst interface {\n\t\tAtoD(*SA) *DA\n\t}\n\tSecond interface {\n\t\tBtoD(*SB) *DB\n\t}\n)"},
+		// doc comments consisting only of stripped directive lines, on every kind of declaration (0a2043e)
+		{name: "grouped-generate-doc-marked", text: "//go:generate go run github.com/reedom/convergen\ntype (\n\t// :convergen\n\tFirst interface {\n\t\tAtoD(*SA) *DA\n\t}\n)"},
+		{name: "grouped-generate-doc", text: "//go:generate go run github.com/reedom/convergen\ntype (\n\tConvergen interface {\n\t\tAtoD(*SA) *DA\n\t}\n)"},
+		{name: "spec-generate-doc", text: "type (\n\t//go:generate go run github.com/reedom/convergen\n\tConvergen interface {\n\t\tAtoD(*SA) *DA\n\t}\n)"},
+		{name: "method-generate-doc", text: "type Convergen interface {\n\t//go:generate go run github.com/reedom/convergen\n\tAtoD(*SA) *DA\n}"},
+		{name: "other-decls-generate-doc", decls: []string{"//go:generate go run github.com/reedom/convergen\nvar (\n\t//go:generate go run github.com/reedom/convergen\n\tV1 = 1\n)", "//go:generate go run github.com/reedom/convergen\nfunc F1() {}", "type T1 struct {\n\t//go:generate go run github.com/reedom/convergen\n\tX int //go:generate go run github.com/reedom/convergen\n}"}, text: "//go:generate go run github.com/reedom/convergen\ntype Convergen interface {\n\tAtoD(*SA) *DA\n}"},
 		{name: "grouped-empty", text: "type ()\n\ntype Convergen interface {\n\tAtoD(*SA) *DA\n}"},
 		{name: "zero-methods", text: "type Convergen interface {\n}"},
 		{name: "zero-methods-oneline", text: "type Convergen interface{}"},
